@@ -3,6 +3,7 @@
 Everything here derives its paths from this file's location so that the
 checks run unchanged from /verif or from a `vp run` snapshot of it.
 """
+import signal
 import atexit, fcntl, hashlib, json, os, random, re, shutil, subprocess, sys
 import tempfile, time
 from concurrent.futures import ThreadPoolExecutor
@@ -62,10 +63,21 @@ class Lock:
         self.f.close()
 
 
+def die_with_parent():
+    """preexec_fn: the child gets SIGKILL when the check process dies (however it dies), so that a
+    killed or timed-out check leaves no model drivers, harnesses or servers behind"""
+    try:
+        import ctypes
+        ctypes.CDLL(None).prctl(1, signal.SIGKILL)      # PR_SET_PDEATHSIG
+    except Exception:
+        pass
+
+
 def run(cmd, **kw):
     kw.setdefault("stdout", subprocess.PIPE)
     kw.setdefault("stderr", subprocess.STDOUT)
     kw.setdefault("text", True)
+    kw.setdefault("preexec_fn", die_with_parent)
     return subprocess.run(cmd, **kw)
 
 
@@ -437,7 +449,7 @@ def run_lines(cmd, lines, timeout=1800, env=None):
     if env:
         e.update(env)
     p = subprocess.run(cmd, input=data, stdout=subprocess.PIPE,
-                       stderr=subprocess.PIPE, timeout=timeout, env=e)
+                       stderr=subprocess.PIPE, timeout=timeout, env=e, preexec_fn=die_with_parent)
     return p.stdout.decode("latin-1").split("\n")[:-1], p.returncode, \
         p.stderr.decode("latin-1")
 
